@@ -22,7 +22,10 @@ From TV Require Import Common.Harness Common.ObsCore C08.Model C08.Law C16.Model
 Import ListNotations.
 Open Scope nat_scope.
 
-Inductive op16 := Reg | Unreg | Mut (o : op).
+(* RegLazy x f items: the registration itself reads the container link f of x, whose default (a _name_default
+   method) has content: ListenerItem._register_list/_register_dict use getattr(object, name), which materialises
+   the default; observe() is registered right after and finds the container there *)
+Inductive op16 := Reg | Unreg | Mut (o : op) | RegLazy (x : oid) (f : fname) (items : list oid).
 
 Record obs16 := mkObs16 {
   o_out : outcome;
@@ -37,7 +40,7 @@ Definition nonempty {A} (l : list A) : bool := match l with [] => false | _ => t
 Definition law16_step (gs : list graph) (root : oid) (active : bool) (hb : heap) (o : op16) (ob : obs16) : list Z :=
   let ha := apply_delta hb (o_delta ob) in
   match o with
-  | Reg | Unreg => chk 5 (is_nil (o_ocalls ob) && is_nil (o_lcalls ob))
+  | Reg | Unreg | RegLazy _ _ _ => chk 5 (is_nil (o_ocalls ob) && is_nil (o_lcalls ob))
   | Mut m =>
       match op_slot m with
       | None => chk 5 (is_nil (o_ocalls ob) && is_nil (o_lcalls ob))
@@ -69,7 +72,7 @@ Fixpoint law16_hist (gs : list graph) (root : oid) (i : Z) (active : bool) (h : 
   | (o, ob) :: r =>
       map (fun c => (100 * i + c)%Z) (law16_step gs root active h o ob)
       ++ law16_hist gs root (i + 1)%Z
-           (match o with Reg => true | Unreg => false | Mut _ => active end)
+           (match o with Reg | RegLazy _ _ _ => true | Unreg => false | Mut _ => active end)
            (apply_delta h (o_delta ob)) r
   end.
 
